@@ -673,8 +673,10 @@ class Decoder(wiring.Component):
         if sub_bus.data_width != self.bus.data_width:
             raise ValueError(f"Subordinate bus has data width {sub_bus.data_width}, which is not "
                              f"the same as decoder data width {self.bus.data_width}")
+        window_range = self.bus.memory_map.add_window(sub_bus.memory_map, name=name, addr=addr)
+        # The subordinate is only recorded once its window has been accepted.
         self._subs[sub_bus.memory_map] = sub_bus
-        return self.bus.memory_map.add_window(sub_bus.memory_map, name=name, addr=addr)
+        return window_range
 
     def elaborate(self, platform):
         m = Module()
